@@ -6,6 +6,8 @@ import NmVerif.Lemmas.LinalgMatmul
 import NmVerif.Lemmas.LinalgMatmulV2
 import NmVerif.Lemmas.LinalgDot
 import NmVerif.Lemmas.LinalgTrace
+import NmVerif.Lemmas.LinalgTensordot
+import NmVerif.Lemmas.LinalgSmall
 /-
   C16 — Linear-algebra routines equal their mathematical definitions.
   Only property statements (+ non-vacuity examples, counterexample theorems) live here; the proofs are in
@@ -150,5 +152,114 @@ theorem trace_negative_offset_counterexample :
       some ([2], [none, some 3], [some 8, some 12]) ∧
     (specTrace [2, 3, 3] (-1) 1 2).map (fun r => (r.shape, (r.get [1]).map (fun i => computeOffset i (strides [2, 3, 3])))) =
       some ([2], [12, 16]) := by decide
+
+/-! ### tensordot -/
+
+/-- `view::tensordot(a, b, n)` with an integer `n` (any ranks, any `0 ≤ n ≤ min rank`; `n = 0` is the outer product):
+    for `a` of shape `FA ++ C` and `b` of shape `C ++ FB` (`|C| = n`, positive extents) the result has NumPy's shape
+    `FA ++ FB` and `out[p…, q…] = Σ_c a[p…, c…] · b[c…, q…]`, `c` running over exactly the contracted block `C` in
+    row-major order — the last `n` axes of `a` paired in order with the first `n` axes of `b`. -/
+theorem tensordot_int_eq_def (FA FB C : Shape) (hpb : Pos FB) :
+    ∃ r, tensordotInt (FA ++ C) (C ++ FB) C.length = some r ∧ r.shape = FA ++ FB ∧
+      ∀ p q, InShape p FA → InShape q FB →
+        r.get (p ++ q) = (allIdx C).map (fun c => (p ++ c, c ++ q)) :=
+  tensordotInt_elem FA FB C hpb
+
+example : (tensordotInt [2, 3, 4] [3, 4, 5] 2).map (fun r => (r.shape, r.get [1, 4])) =
+    some ([2, 5], (allIdx [3, 4]).map (fun c => ([1] ++ c, c ++ [4]))) := by decide
+
+/- FULL STATEMENT (explicit axes), not proved for arbitrary rank:
+   theorem tensordot_eq_def (sa sb) (la ra : List Int) (la' ra' : List Nat) (s)
+       (normalisation of la, ra to la', ra') (hacc : specTensordot sa sb la' ra' = some s) (Pos sa) (Pos sb) :
+       ∃ r, tensordotAxes sa sb la ra = some r ∧ r.shape = s.shape ∧ ∀ d, InShape d s.shape → r.get d = s.get d
+   What is proved instead: (1) `tensordot_axes_eq_def_partial` — for every rank and every axis lists the result shape is
+   (free extents of a) ++ (free extents of b) and the terms of `out[p…, q…]` are, for `c` over exactly the contracted
+   block in row-major order, `(scatter (p ++ c) lt, scatter (q ++ c) rt)` with `lt`/`rt` the transposition axes the code
+   computes (free axes in order, then the listed axes in the given order): the same `c` on both sides, every `c` once.
+   The missing step is the identification `scatter (p ++ c) (moveToEnd dim axes) = placeIdx axes c (range dim) p`
+   (that transposing by these axes puts `p` on the free axes in order and `c[t]` on axis `axes[t]`) for arbitrary rank.
+   (2) `tensordot_axes_small_scope_partial` — the full statement for all operand shapes of rank ≤ 2 / extents ≤ 3 and
+   every ordered axis choice, kernel-checked by `decide`. -/
+
+/-- explicit axes, any ranks: shape and term structure with the two transposes in `scatter` form (see the comment above) -/
+theorem tensordot_axes_eq_def_partial (sa sb : Shape) (la ra : List Int) (la' ra' : List Nat) (FA FB C : Shape)
+    (hla : la.mapM (normAxis · sa.length) = some la') (hra : ra.mapM (normAxis · sb.length) = some ra')
+    (hta : (moveToEnd sa.length la').mapM (fun k => sa[k]?) = some (FA ++ C))
+    (htb : (moveToEnd sb.length ra').mapM (fun k => sb[k]?) = some (FB ++ C))
+    (hn : la.length = C.length) (hlb : sb.length = FB.length + C.length) (hpb : Pos FB) :
+    ∃ r, tensordotAxes sa sb la ra = some r ∧ r.shape = FA ++ FB ∧
+      ∀ p q, InShape p FA → InShape q FB →
+        r.get (p ++ q) = (allIdx C).map (fun c =>
+          (scatter (p ++ c) (moveToEnd sa.length la'), scatter (q ++ c) (moveToEnd sb.length ra'))) :=
+  tensordotAxes_elem_scatter sa sb la ra la' ra' FA FB C hla hra hta htb hn hlb hpb
+
+example : [(-3 : Int), 2].mapM (normAxis · 3) = some [0, 2] ∧ (moveToEnd 3 [0, 2]).mapM (fun k => [2, 3, 4][k]?) = some ([3] ++ [2, 4])
+    ∧ (moveToEnd 3 [2, 1]).mapM (fun k => [5, 4, 2][k]?) = some ([5] ++ [2, 4]) := by decide
+example : scatter ([1] ++ [0, 3]) (moveToEnd 3 [0, 2]) = placeIdx [0, 2] [0, 3] (List.range 3) [1] := by decide
+
+/-- explicit axes, the full statement on the small scope: every pair of operand shapes of rank ≤ 2 with extents 1..3,
+    every ordered choice of contracted axes that NumPy accepts — NumPy's shape and exactly NumPy's terms at every index -/
+theorem tensordot_axes_small_scope_partial (sa sb : Shape)
+    (ha : sa ∈ shapesOfRank 1 3 ∨ sa ∈ shapesOfRank 2 3) (hb : sb ∈ shapesOfRank 1 3 ∨ sb ∈ shapesOfRank 2 3) :
+    tensordotAgrees sa sb = true := by
+  have hsplit : ∀ x, x ∈ shapesOfRank 2 3 →
+      x ∈ (shapesOfRank 2 3).take 3 ∨ x ∈ ((shapesOfRank 2 3).drop 3).take 3 ∨ x ∈ (shapesOfRank 2 3).drop 6 := by
+    intro x hx
+    have : shapesOfRank 2 3 = (shapesOfRank 2 3).take 3 ++ (((shapesOfRank 2 3).drop 3).take 3 ++ (shapesOfRank 2 3).drop 6) := by decide
+    rw [this] at hx
+    simpa [List.mem_append] using hx
+  rcases ha with ha | ha <;> rcases hb with hb | hb
+  · exact tensordot_small_11 sa ha sb hb
+  · exact tensordot_small_12 sa ha sb hb
+  · exact tensordot_small_21 sa ha sb hb
+  · rcases hsplit sa ha with h | h | h
+    · exact tensordot_small_22a sa h sb hb
+    · exact tensordot_small_22b sa h sb hb
+    · exact tensordot_small_22c sa h sb hb
+
+example : [2, 3] ∈ shapesOfRank 2 3 ∧ [3, 2] ∈ shapesOfRank 2 3 ∧
+    (specTensordot [2, 3] [3, 2] [1, 0] [0, 1]).map (fun s => (s.shape, s.get [])) =
+      some ([], [([0, 0], [0, 0]), ([1, 0], [0, 1]), ([0, 1], [1, 0]), ([1, 1], [1, 1]), ([0, 2], [2, 0]), ([1, 2], [2, 1])]) := by decide
+
+/-! ### kron -/
+
+/- FULL STATEMENT, not proved for arbitrary rank:
+   theorem kron_eq_def (sa sb) (Pos sa) (Pos sb) :
+       ∃ r, kron sa sb = some r ∧ r.shape = (specKron sa sb).shape ∧ ∀ d, InShape d r.shape → r.get d = (specKron sa sb).get d
+   What is proved instead: `kron_small_scope_partial` — the full statement (shape and, at every index, the single product
+   term `a[d / b'] · b[d % b']`) for every pair of operand shapes of rank ≤ 2 with extents 1..3 and of ranks (1,3), (3,1),
+   (2,3), (3,2) with extents 1..2 (so the rank-difference recursion of `kron_dst_transpose` is exercised two levels deep),
+   kernel-checked by `decide`.  Missing for arbitrary rank: the closed form of `kron_dst_transpose` (the recursion with
+   pairwise swaps yields "leading axes of the longer operand, then the axes of both interleaved") and the reshape that
+   merges each interleaved pair `(i_t, j_t)` into `i_t·b_t + j_t`. -/
+theorem kron_small_scope_partial (sa sb : Shape)
+    (h : (sa ∈ shapesOfRank 1 3 ∨ sa ∈ shapesOfRank 2 3) ∧ (sb ∈ shapesOfRank 1 3 ∨ sb ∈ shapesOfRank 2 3)
+       ∨ (sa ∈ shapesOfRank 1 2 ∨ sa ∈ shapesOfRank 2 2) ∧ sb ∈ shapesOfRank 3 2
+       ∨ sa ∈ shapesOfRank 3 2 ∧ (sb ∈ shapesOfRank 1 2 ∨ sb ∈ shapesOfRank 2 2)) :
+    kronAgrees sa sb = true := by
+  have hsplit : ∀ x, x ∈ shapesOfRank 2 3 →
+      x ∈ (shapesOfRank 2 3).take 3 ∨ x ∈ ((shapesOfRank 2 3).drop 3).take 3 ∨ x ∈ (shapesOfRank 2 3).drop 6 := by
+    intro x hx
+    have : shapesOfRank 2 3 = (shapesOfRank 2 3).take 3 ++ (((shapesOfRank 2 3).drop 3).take 3 ++ (shapesOfRank 2 3).drop 6) := by decide
+    rw [this] at hx
+    simpa [List.mem_append] using hx
+  rcases h with ⟨ha, hb⟩ | ⟨ha, hb⟩ | ⟨ha, hb⟩
+  · rcases ha with ha | ha <;> rcases hb with hb | hb
+    · exact kron_small_11 sa ha sb hb
+    · exact kron_small_12 sa ha sb hb
+    · exact kron_small_21 sa ha sb hb
+    · rcases hsplit sa ha with h | h | h
+      · exact kron_small_22a sa h sb hb
+      · exact kron_small_22b sa h sb hb
+      · exact kron_small_22c sa h sb hb
+  · rcases ha with ha | ha
+    · exact kron_small_13 sa ha sb hb
+    · exact kron_small_23 sa ha sb hb
+  · rcases hb with hb | hb
+    · exact kron_small_31 sa ha sb hb
+    · exact kron_small_32 sa ha sb hb
+
+example : [2, 3] ∈ shapesOfRank 2 3 ∧ [3] ∈ shapesOfRank 1 3 ∧ (specKron [2, 3] [3]).shape = [2, 9] ∧
+    (specKron [2, 3] [3]).get [1, 7] = ([1, 2], [1]) := by decide
 
 end NmVerif.Props.C16
